@@ -87,6 +87,14 @@ def rule_A9(tree: Tree) -> RuleResult:
     r.instances += 1
     r.ob(dirs_seen == {"server", "client"}, Finding("A9", "session:Session.handle_packet:dedupe:both-directions",
                                                     f"both directions must buffer their segments (found arms for {sorted(dirs_seen)})", m.line(f.node)))
+    # the memory of accepted sequence numbers is unbounded for the life of the connection: a bounded container (deque(maxlen=…), a window) forgets old numbers and
+    # accepts a late exact duplicate a second time, which then blocks the direction
+    r.instances += 1
+    inits = {dotted(a.targets[0]): a.value for a in body_walk(ses.methods["__init__"].node) if isinstance(a, ast.Assign) and (dotted(a.targets[0]) or "").startswith("self.seen_packets_")}
+    okm = set(inits) == {"self.seen_packets_server", "self.seen_packets_client"} and all(
+        (isinstance(v, (ast.List, ast.Set)) and not getattr(v, "elts", None)) or (isinstance(v, ast.Call) and dotted(v.func) in ("list", "set") and not v.args and not v.keywords) for v in inits.values())
+    r.ob(okm, Finding("A9", "session:Session.__init__:seen-unbounded", f"seen_packets_server / seen_packets_client must start as empty unbounded containers ([] or set()); found "
+                                                                       f"{ {k: src(v, 40) for k, v in inits.items()} }", ses.module.line(ses.methods['__init__'].node)))
     return r
 
 
